@@ -151,7 +151,7 @@ fn handle(tok: Option<&str>) -> Option<u32> {
 
 impl<'a, C: Crypto> World<'a, C> {
     fn sessions<R>(&self, f: impl FnOnce(&mut Sessions) -> R) -> R {
-        self.matter.with_state(|st| f(st.verif_sessions()))
+        self.matter.with_state(|st| f(st.verif_sessions_mut()))
     }
 
     fn op(&mut self, op: &str) -> String {
@@ -251,7 +251,7 @@ impl<'a, C: Crypto> World<'a, C> {
                             "x" => SessionMode::PlainText,
                             _ => SessionMode::Pase { fab_idx: 0 },
                         }),
-                        "exp" => now_touch.verif_set_expired(true),
+                        "exp" => now_touch.verif_set_expired_t(true),
                         _ => now_touch.verif_set_msg_ctr(arg.parse().unwrap_or(0)),
                     }
                     "ok".to_string()
@@ -344,7 +344,7 @@ impl<'a, C: Crypto> World<'a, C> {
                 let id = num(1) as u32;
                 self.sessions(|ss| match ss.get(id) {
                     None => "nosess".into(),
-                    Some(s) => match catch_unwind(AssertUnwindSafe(|| s.verif_pre_send(slot, &mut hdr, sai, None))) {
+                    Some(s) => match catch_unwind(AssertUnwindSafe(|| s.verif_pre_send_t(slot, &mut hdr, sai, None))) {
                         Err(_) => "panic".into(),
                         Ok(Ok((_, retr))) => format!(
                             "ctr {} rt {} ack {} sid {}",
